@@ -1,0 +1,16 @@
+//! Verification hooks (feature `verif`): thin wrappers that expose crate-private
+//! functions to the external verification harness. Nothing here is compiled
+//! unless the feature is enabled.
+use crate::util::parser;
+
+pub fn parse_css_legend(input: &str) -> Option<Vec<(String, String)>> {
+    parser::parse_css_legend(input).ok()
+}
+
+pub fn parse_css_tag(input: &str) -> Option<Vec<String>> {
+    parser::parse_css_tag(input).ok()
+}
+
+pub fn line_parse(input: &[char]) -> Option<Vec<(usize, usize)>> {
+    parser::line_parse().parse(input).ok()
+}
